@@ -1,6 +1,1724 @@
-//! C02 — stub (not built yet).
+//! C02 — built messages parse back to exactly what was pushed, under every
+//! compressor and on every target.
+//!
+//! Stateful op-sequence PBT. A case is (target kind, compressor kind, op
+//! list), decoded from bytes. The interpreter drives the real builder types
+//! (`MessageBuilder` … `AdditionalBuilder`, `OptBuilder`) and a model (header
+//! + list of the pushes that returned `Ok`). After every op the cheap
+//! invariants are checked (failed push leaves octets unchanged, header and
+//! counts equal the model, stream length prefix); on `Check` ops, while the
+//! message is small, and at the end the octets are parsed by the independent
+//! walker (`refimpl::wire`) and by the library's own reader and compared
+//! with the model item by item.
 use crate::engine::*;
+use crate::gen::message as gm;
+use crate::gen::name::{self as gn, Labels};
+use crate::gen::rdata as grd;
+use crate::gen::*;
+use crate::refimpl::rdata as rr;
+use crate::refimpl::wire;
+use crate::{vensure, vfail};
+use arbitrary::Unstructured;
+use bytes::{Bytes, BytesMut};
+use domain::base::iana::{Class, Opcode, OptRcode, OptionCode, Rcode, Rtype};
+use domain::base::message::Message;
+use domain::base::message_builder::{
+    AdditionalBuilder, AnswerBuilder, AuthorityBuilder, HashCompressor, MessageBuilder, PushError, QuestionBuilder,
+    StaticCompressor, StreamTarget, TreeCompressor,
+};
+use domain::base::name::{Chain, FlattenInto, Name, ParsedName, RelativeName, ToName};
+use domain::base::opt::{AllOptData, ComposeOptData, Opt, OptData};
+use domain::base::question::ComposeQuestion;
+use domain::base::rdata::{ComposeRecordData, UnknownRecordData};
+use domain::base::record::ComposeRecord;
+use domain::base::wire::Composer;
+use domain::base::{Question, Record, Ttl};
+use domain::rdata::AllRecordData;
+use octseq::array::Array;
+use octseq::builder::{OctetsBuilder, ShortBuf, Truncate};
+use std::collections::BTreeMap;
+
+//============ Targets =========================================================
+
+/// Innermost target: a plain buffer or a `StreamTarget` around one.
+trait Base: Composer + Clone {
+    fn fresh(tk: u8) -> Self;
+    fn is_stream(&self) -> bool;
+    /// Largest message (without the stream prefix) the buffer can hold.
+    fn cap(&self) -> Option<usize>;
+    /// The complete stream slice (with prefix) for stream targets.
+    fn stream_slice(&self) -> Option<&[u8]>;
+    /// The message octets as the finished target exposes them.
+    fn final_octets(&self) -> &[u8];
+}
+
+impl Base for Vec<u8> {
+    fn fresh(_: u8) -> Self { Vec::new() }
+    fn is_stream(&self) -> bool { false }
+    fn cap(&self) -> Option<usize> { None }
+    fn stream_slice(&self) -> Option<&[u8]> { None }
+    fn final_octets(&self) -> &[u8] { self.as_ref() }
+}
+impl Base for BytesMut {
+    fn fresh(_: u8) -> Self { BytesMut::new() }
+    fn is_stream(&self) -> bool { false }
+    fn cap(&self) -> Option<usize> { None }
+    fn stream_slice(&self) -> Option<&[u8]> { None }
+    fn final_octets(&self) -> &[u8] { self.as_ref() }
+}
+impl<const N: usize> Base for Array<N> {
+    fn fresh(_: u8) -> Self { Array::new() }
+    fn is_stream(&self) -> bool { false }
+    fn cap(&self) -> Option<usize> { Some(N) }
+    fn stream_slice(&self) -> Option<&[u8]> { None }
+    fn final_octets(&self) -> &[u8] { self.as_slice() }
+}
+impl Base for StreamTarget<Vec<u8>> {
+    fn fresh(_: u8) -> Self { StreamTarget::new_vec() }
+    fn is_stream(&self) -> bool { true }
+    fn cap(&self) -> Option<usize> { None }
+    fn stream_slice(&self) -> Option<&[u8]> { Some(self.as_stream_slice()) }
+    fn final_octets(&self) -> &[u8] { self.as_dgram_slice() }
+}
+impl Base for StreamTarget<BytesMut> {
+    fn fresh(_: u8) -> Self { StreamTarget::new_bytes() }
+    fn is_stream(&self) -> bool { true }
+    fn cap(&self) -> Option<usize> { None }
+    fn stream_slice(&self) -> Option<&[u8]> { Some(self.as_stream_slice()) }
+    fn final_octets(&self) -> &[u8] { self.as_dgram_slice() }
+}
+impl<const N: usize> Base for StreamTarget<Array<N>> {
+    fn fresh(_: u8) -> Self { StreamTarget::new(Array::new()).expect("array holds the length prefix") }
+    fn is_stream(&self) -> bool { true }
+    fn cap(&self) -> Option<usize> { Some(N - 2) }
+    fn stream_slice(&self) -> Option<&[u8]> { Some(self.as_stream_slice()) }
+    fn final_octets(&self) -> &[u8] { self.as_dgram_slice() }
+}
+
+/// All sixteen buffers behind one type. Instantiating the interpreter (and
+/// with it the composition code of every record type) for 16 buffers x 4
+/// compressors takes minutes to build, so most cells are reached through
+/// this enum. It only forwards the five operations a target offers
+/// (`append_slice`, `truncate`, `as_ref`, `as_mut`, `append_compressed_name`
+/// / `can_compress`) to the real buffer or `StreamTarget`; the compressors
+/// wrap it exactly as they would wrap the buffer itself. A handful of cells
+/// is instantiated directly as well (see `run_dispatch`).
+#[derive(Clone)]
+enum DynBase {
+    V(Vec<u8>),
+    B(BytesMut),
+    A512(Array<512>),
+    SV(StreamTarget<Vec<u8>>),
+    SB(StreamTarget<BytesMut>),
+    SA512(StreamTarget<Array<512>>),
+    A64(Array<64>),
+    A1232(Array<1232>),
+    A4096(Box<Array<4096>>),
+    A20000(Box<Array<20000>>),
+    A70000(Box<Array<70000>>),
+    SA64(StreamTarget<Array<64>>),
+    SA1232(StreamTarget<Array<1232>>),
+    SA4096(Box<StreamTarget<Array<4096>>>),
+    SA20000(Box<StreamTarget<Array<20000>>>),
+    SA70000(Box<StreamTarget<Array<70000>>>),
+}
+
+/// `$x` is bound to `&mut`/`&` of the real target (boxes are dereferenced).
+macro_rules! each_base {
+    ($self:expr, $x:ident => $e:expr) => {
+        match $self {
+            DynBase::V($x) => $e,
+            DynBase::B($x) => $e,
+            DynBase::A512($x) => $e,
+            DynBase::SV($x) => $e,
+            DynBase::SB($x) => $e,
+            DynBase::SA512($x) => $e,
+            DynBase::A64($x) => $e,
+            DynBase::A1232($x) => $e,
+            DynBase::A4096($x) => { let $x = &mut **$x; $e }
+            DynBase::A20000($x) => { let $x = &mut **$x; $e }
+            DynBase::A70000($x) => { let $x = &mut **$x; $e }
+            DynBase::SA64($x) => $e,
+            DynBase::SA1232($x) => $e,
+            DynBase::SA4096($x) => { let $x = &mut **$x; $e }
+            DynBase::SA20000($x) => { let $x = &mut **$x; $e }
+            DynBase::SA70000($x) => { let $x = &mut **$x; $e }
+        }
+    };
+    (ref $self:expr, $x:ident => $e:expr) => {
+        match $self {
+            DynBase::V($x) => $e,
+            DynBase::B($x) => $e,
+            DynBase::A512($x) => $e,
+            DynBase::SV($x) => $e,
+            DynBase::SB($x) => $e,
+            DynBase::SA512($x) => $e,
+            DynBase::A64($x) => $e,
+            DynBase::A1232($x) => $e,
+            DynBase::A4096($x) => { let $x = &**$x; $e }
+            DynBase::A20000($x) => { let $x = &**$x; $e }
+            DynBase::A70000($x) => { let $x = &**$x; $e }
+            DynBase::SA64($x) => $e,
+            DynBase::SA1232($x) => $e,
+            DynBase::SA4096($x) => { let $x = &**$x; $e }
+            DynBase::SA20000($x) => { let $x = &**$x; $e }
+            DynBase::SA70000($x) => { let $x = &**$x; $e }
+        }
+    };
+}
+
+impl OctetsBuilder for DynBase {
+    type AppendError = ShortBuf;
+    fn append_slice(&mut self, slice: &[u8]) -> Result<(), ShortBuf> {
+        each_base!(self, x => x.append_slice(slice).map_err(Into::into))
+    }
+}
+impl Truncate for DynBase {
+    fn truncate(&mut self, len: usize) {
+        each_base!(self, x => x.truncate(len))
+    }
+}
+impl AsRef<[u8]> for DynBase {
+    fn as_ref(&self) -> &[u8] {
+        each_base!(ref self, x => AsRef::<[u8]>::as_ref(x))
+    }
+}
+impl AsMut<[u8]> for DynBase {
+    fn as_mut(&mut self) -> &mut [u8] {
+        each_base!(self, x => AsMut::<[u8]>::as_mut(x))
+    }
+}
+impl Composer for DynBase {
+    fn append_compressed_name<N: ToName + ?Sized>(&mut self, name: &N) -> Result<(), ShortBuf> {
+        each_base!(self, x => x.append_compressed_name(name).map_err(Into::into))
+    }
+    fn can_compress(&self) -> bool {
+        each_base!(ref self, x => x.can_compress())
+    }
+}
+impl Base for DynBase {
+    fn fresh(tk: u8) -> Self {
+        match tk {
+            0 => DynBase::V(Base::fresh(tk)),
+            1 => DynBase::B(Base::fresh(tk)),
+            2 => DynBase::A512(Base::fresh(tk)),
+            3 => DynBase::SV(Base::fresh(tk)),
+            4 => DynBase::SB(Base::fresh(tk)),
+            5 => DynBase::SA512(Base::fresh(tk)),
+            6 => DynBase::A64(Base::fresh(tk)),
+            7 => DynBase::A1232(Base::fresh(tk)),
+            8 => DynBase::A4096(Box::new(Base::fresh(tk))),
+            9 => DynBase::A20000(Box::new(Base::fresh(tk))),
+            10 => DynBase::A70000(Box::new(Base::fresh(tk))),
+            11 => DynBase::SA64(Base::fresh(tk)),
+            12 => DynBase::SA1232(Base::fresh(tk)),
+            13 => DynBase::SA4096(Box::new(Base::fresh(tk))),
+            14 => DynBase::SA20000(Box::new(Base::fresh(tk))),
+            _ => DynBase::SA70000(Box::new(Base::fresh(tk))),
+        }
+    }
+    fn is_stream(&self) -> bool { each_base!(ref self, x => x.is_stream()) }
+    fn cap(&self) -> Option<usize> { each_base!(ref self, x => x.cap()) }
+    fn stream_slice(&self) -> Option<&[u8]> { each_base!(ref self, x => x.stream_slice()) }
+    fn final_octets(&self) -> &[u8] { each_base!(ref self, x => x.final_octets()) }
+}
+
+/// What the message builder sits on: a base, possibly inside a compressor.
+trait Top: Composer + Clone {
+    type B: Base;
+    fn wrap(b: Self::B) -> Self;
+    fn base(&self) -> &Self::B;
+    fn into_base(self) -> Self::B;
+    /// `into_message()` where the target can be frozen (directly
+    /// instantiated non-stream targets).
+    fn into_message_octets(b: Bld<Self>) -> Option<Vec<u8>>;
+}
+
+macro_rules! into_msg_arm {
+    (freeze, $b:ident) => {
+        Some(match $b {
+            Bld::M(x) => x.into_message().as_slice().to_vec(),
+            Bld::Q(x) => x.into_message().as_slice().to_vec(),
+            Bld::An(x) => x.into_message().as_slice().to_vec(),
+            Bld::Au(x) => x.into_message().as_slice().to_vec(),
+            Bld::Ad(x) => x.into_message().as_slice().to_vec(),
+        })
+    };
+    (nofreeze, $b:ident) => {{
+        let _ = $b;
+        None
+    }};
+}
+
+macro_rules! impl_top {
+    ($mode:ident; $t:ty; $b:ty; $wrap:expr; $base:expr; $into:expr) => {
+        impl Top for $t {
+            type B = $b;
+            fn wrap(b: $b) -> Self { $wrap(b) }
+            fn base(&self) -> &$b { $base(self) }
+            fn into_base(self) -> $b { $into(self) }
+            fn into_message_octets(b: Bld<Self>) -> Option<Vec<u8>> { into_msg_arm!($mode, b) }
+        }
+    };
+}
+macro_rules! impl_top_all {
+    ($mode:ident; $b:ty) => {
+        impl_top!($mode; $b; $b; |b| b; |s| s; |s| s);
+        impl_top!($mode; StaticCompressor<$b>; $b; StaticCompressor::new; StaticCompressor::as_target; StaticCompressor::into_target);
+        impl_top!($mode; TreeCompressor<$b>; $b; TreeCompressor::new; TreeCompressor::as_target; TreeCompressor::into_target);
+        impl_top!($mode; HashCompressor<$b>; $b; HashCompressor::new; HashCompressor::as_target; HashCompressor::into_target);
+    };
+}
+impl_top_all!(nofreeze; DynBase);
+impl_top_all!(freeze; Vec<u8>);
+impl_top!(freeze; BytesMut; BytesMut; |b| b; |s| s; |s| s);
+impl_top!(freeze; HashCompressor<BytesMut>; BytesMut; HashCompressor::new; HashCompressor::as_target; HashCompressor::into_target);
+impl_top!(freeze; Array<512>; Array<512>; |b| b; |s| s; |s| s);
+impl_top!(freeze; StaticCompressor<Array<512>>; Array<512>; StaticCompressor::new; StaticCompressor::as_target; StaticCompressor::into_target);
+impl_top!(nofreeze; StreamTarget<Vec<u8>>; StreamTarget<Vec<u8>>; |b| b; |s| s; |s| s);
+impl_top!(nofreeze; StaticCompressor<StreamTarget<Vec<u8>>>; StreamTarget<Vec<u8>>; StaticCompressor::new; StaticCompressor::as_target; StaticCompressor::into_target);
+impl_top!(nofreeze; TreeCompressor<StreamTarget<Vec<u8>>>; StreamTarget<Vec<u8>>; TreeCompressor::new; TreeCompressor::as_target; TreeCompressor::into_target);
+
+const KINDS: [(&str, &str); 16] = [
+    ("Vec", "Vec"),
+    ("BytesMut", "BytesMut"),
+    ("Array", "Array<512>"),
+    ("StreamVec", "Stream<Vec>"),
+    ("StreamBytesMut", "Stream<BytesMut>"),
+    ("StreamArray", "Stream<Array<512>>"),
+    ("Array", "Array<64>"),
+    ("Array", "Array<1232>"),
+    ("Array", "Array<4096>"),
+    ("Array", "Array<20000>"),
+    ("Array", "Array<70000>"),
+    ("StreamArray", "Stream<Array<64>>"),
+    ("StreamArray", "Stream<Array<1232>>"),
+    ("StreamArray", "Stream<Array<4096>>"),
+    ("StreamArray", "Stream<Array<20000>>"),
+    ("StreamArray", "Stream<Array<70000>>"),
+];
+/// Kinds able to hold more than 0x4000 octets (for the boundary family).
+const BIG_KINDS: [u8; 8] = [0, 1, 3, 4, 9, 10, 14, 15];
+const COMPS: [&str; 4] = ["none", "Static", "Tree", "Hash"];
+
+/// Runs the script on the cell (tk, ck). `direct` asks for the directly
+/// instantiated type where there is one.
+fn run_dispatch(case: &Case, tk: u8, ck: u8, direct: bool) -> Result<(Out, bool), Violation> {
+    if direct {
+        let r = match (tk, ck) {
+            (0, 0) => Some(run_script::<Vec<u8>>(case, tk)),
+            (0, 1) => Some(run_script::<StaticCompressor<Vec<u8>>>(case, tk)),
+            (0, 2) => Some(run_script::<TreeCompressor<Vec<u8>>>(case, tk)),
+            (0, 3) => Some(run_script::<HashCompressor<Vec<u8>>>(case, tk)),
+            (1, 0) => Some(run_script::<BytesMut>(case, tk)),
+            (1, 3) => Some(run_script::<HashCompressor<BytesMut>>(case, tk)),
+            (2, 0) => Some(run_script::<Array<512>>(case, tk)),
+            (2, 1) => Some(run_script::<StaticCompressor<Array<512>>>(case, tk)),
+            (3, 0) => Some(run_script::<StreamTarget<Vec<u8>>>(case, tk)),
+            (3, 1) => Some(run_script::<StaticCompressor<StreamTarget<Vec<u8>>>>(case, tk)),
+            (3, 2) => Some(run_script::<TreeCompressor<StreamTarget<Vec<u8>>>>(case, tk)),
+            _ => None,
+        };
+        if let Some(r) = r {
+            return r.map(|o| (o, true));
+        }
+    }
+    match ck {
+        0 => run_script::<DynBase>(case, tk),
+        1 => run_script::<StaticCompressor<DynBase>>(case, tk),
+        2 => run_script::<TreeCompressor<DynBase>>(case, tk),
+        _ => run_script::<HashCompressor<DynBase>>(case, tk),
+    }
+    .map(|o| (o, false))
+}
+
+//============ The builder in all its type states ==============================
+
+enum Bld<T> {
+    M(MessageBuilder<T>),
+    Q(QuestionBuilder<T>),
+    An(AnswerBuilder<T>),
+    Au(AuthorityBuilder<T>),
+    Ad(AdditionalBuilder<T>),
+}
+
+macro_rules! go {
+    ($b:expr, $dst:expr, $via:expr) => {
+        match $dst {
+            0 => Bld::M(if $via { $b.into() } else { $b.builder() }),
+            1 => Bld::Q(if $via { $b.into() } else { $b.question() }),
+            2 => Bld::An(if $via { $b.into() } else { $b.answer() }),
+            3 => Bld::Au(if $via { $b.into() } else { $b.authority() }),
+            _ => Bld::Ad(if $via { $b.into() } else { $b.additional() }),
+        }
+    };
+}
+
+impl<T: Top> Bld<T> {
+    fn sec(&self) -> u8 {
+        match self {
+            Bld::M(_) => 0,
+            Bld::Q(_) => 1,
+            Bld::An(_) => 2,
+            Bld::Au(_) => 3,
+            Bld::Ad(_) => 4,
+        }
+    }
+    fn mb(&self) -> &MessageBuilder<T> {
+        match self {
+            Bld::M(b) => b,
+            Bld::Q(b) => b.as_builder(),
+            Bld::An(b) => b.as_builder(),
+            Bld::Au(b) => b.as_builder(),
+            Bld::Ad(b) => b.as_builder(),
+        }
+    }
+    fn mb_mut(&mut self) -> &mut MessageBuilder<T> {
+        match self {
+            Bld::M(b) => b,
+            Bld::Q(b) => b.as_builder_mut(),
+            Bld::An(b) => b.as_builder_mut(),
+            Bld::Au(b) => b.as_builder_mut(),
+            Bld::Ad(b) => b.as_builder_mut(),
+        }
+    }
+    fn goto(self, dst: u8, via: bool) -> Self {
+        match self {
+            Bld::M(b) => go!(b, dst, via),
+            Bld::Q(b) => go!(b, dst, via),
+            Bld::An(b) => go!(b, dst, via),
+            Bld::Au(b) => go!(b, dst, via),
+            Bld::Ad(b) => go!(b, dst, via),
+        }
+    }
+    /// false if there is nothing to rewind in this state
+    fn rewind(&mut self) -> bool {
+        match self {
+            Bld::M(_) => return false,
+            Bld::Q(b) => b.rewind(),
+            Bld::An(b) => b.rewind(),
+            Bld::Au(b) => b.rewind(),
+            Bld::Ad(b) => b.rewind(),
+        }
+        true
+    }
+    fn push_q(&mut self, q: impl ComposeQuestion, by_ref: bool) -> Result<(), PushError> {
+        match self {
+            Bld::Q(b) => {
+                if by_ref {
+                    b.push(&q)
+                } else {
+                    b.push(q)
+                }
+            }
+            _ => unreachable!("push_q outside the question section"),
+        }
+    }
+    fn push_r(&mut self, r: impl ComposeRecord, by_ref: bool) -> Result<(), PushError> {
+        match self {
+            Bld::An(b) => {
+                if by_ref {
+                    b.push_ref(&r)
+                } else {
+                    b.push(r)
+                }
+            }
+            Bld::Au(b) => {
+                if by_ref {
+                    b.push(&r)
+                } else {
+                    b.push(r)
+                }
+            }
+            Bld::Ad(b) => {
+                if by_ref {
+                    b.push(&r)
+                } else {
+                    b.push(r)
+                }
+            }
+            _ => unreachable!("push_r outside a record section"),
+        }
+    }
+    fn finish(self) -> T {
+        match self {
+            Bld::M(b) => b.finish(),
+            Bld::Q(b) => b.finish(),
+            Bld::An(b) => b.finish(),
+            Bld::Au(b) => b.finish(),
+            Bld::Ad(b) => b.finish(),
+        }
+    }
+    fn clone_b(&self) -> Self {
+        match self {
+            Bld::M(b) => Bld::M(b.clone()),
+            Bld::Q(b) => Bld::Q(b.clone()),
+            Bld::An(b) => Bld::An(b.clone()),
+            Bld::Au(b) => Bld::Au(b.clone()),
+            Bld::Ad(b) => Bld::Ad(b.clone()),
+        }
+    }
+}
+
+//============ Case ============================================================
+
+#[derive(Clone, Debug, Hash, PartialEq, Eq)]
+struct Rec {
+    owner: Labels,
+    rtype: u16,
+    class: u16,
+    ttl: u32,
+    rdata: Vec<u8>, // uncompressed wire form
+}
+
+#[derive(Clone, Debug, Hash, PartialEq, Eq)]
+struct Quest {
+    name: Labels,
+    qtype: u16,
+    qclass: u16,
+}
+
+#[derive(Clone, Debug, Hash)]
+enum Op {
+    Header { id: u16, flags: u16 },
+    Goto { dst: u8, via_from: bool },
+    PushQ { q: Quest, form: u8, force: bool },
+    PushR { r: Rec, form: u8 },
+    /// one large record so that the write position reaches a boundary
+    Pad { goal: u8, delta: i16, rtype: u16, owner: Labels, form: u8 },
+    Opt { udp: u16, version: u8, dok: bool, rcode: Option<u16>, options: Vec<u8>, typed: bool },
+    Rewind,
+    SetLimit { kind: u8, val: u16 },
+    ClearLimit,
+    Start { error: bool, id: u16, flags: u16, rcode: u8, qs: Vec<Quest> },
+    Check,
+}
+
+#[derive(Clone, Debug, Hash)]
+struct Case {
+    tk: u8,
+    ck: u8,
+    direct: bool,
+    ops: Vec<Op>,
+}
+
+const COMPRESSIBLE: [u16; 11] = [rr::NS, rr::CNAME, rr::SOA, rr::MX, rr::PTR, rr::MINFO, rr::MB, rr::MG, rr::MR, rr::MD, rr::MF];
+
+fn gen_owner(u: &mut Unstructured, pool: &[Labels], plain: bool) -> Labels {
+    match pick(u, 8) {
+        0..=5 => pool[pick(u, pool.len())].clone(),
+        6 => {
+            // fresh child of a pool name
+            let mut c = pool[pick(u, pool.len())].clone();
+            let room = 255usize.saturating_sub(gn::wire_len(&c) + 1).min(63);
+            if room > 0 {
+                c.insert(0, gn::label(u, room.min(10), plain));
+            }
+            c
+        }
+        _ => gn::name(u, plain),
+    }
+}
+
+fn gen_rec(u: &mut Unstructured, pool: &[Labels], plain: bool) -> Rec {
+    let rtype = if chance(u, 120) {
+        COMPRESSIBLE[pick(u, COMPRESSIBLE.len())]
+    } else {
+        match grd::rtype(u, false) {
+            rr::OPT => rr::TXT,
+            t => t,
+        }
+    };
+    let owner = gen_owner(u, pool, plain);
+    let class = gm::class(u);
+    let ttl = gm::ttl(u);
+    let rdata = grd::rdata(u, rtype, pool, grd::Opts { plain_names: plain, max_blob: 120 });
+    Rec { owner, rtype, class, ttl, rdata }
+}
+
+fn gen_quest(u: &mut Unstructured, pool: &[Labels], plain: bool) -> Quest {
+    let name = gen_owner(u, pool, plain);
+    let qtype = match pick(u, 4) {
+        0 => [1u16, 28, 255, 252, 251, 6][pick(u, 6)],
+        _ => grd::rtype(u, false),
+    };
+    Quest { name, qtype, qclass: gm::class(u) }
+}
+
+fn gen_op(u: &mut Unstructured, pool: &[Labels], plain: bool, ops: &mut Vec<Op>) {
+    match pick(u, 32) {
+        0..=9 | 27..=31 => ops.push(Op::PushR { r: gen_rec(u, pool, plain), form: pick(u, 6) as u8 }),
+        10..=12 => ops.push(Op::PushQ { q: gen_quest(u, pool, plain), form: pick(u, 5) as u8, force: chance(u, 64) }),
+        13..=15 => ops.push(Op::Goto { dst: pick(u, 5) as u8, via_from: flag(u) }),
+        16 => ops.push(Op::Rewind),
+        17 | 18 => ops.push(gen_pad(u, pool, None)),
+        19 | 20 => {
+            let options = if chance(u, 64) { vec![] } else { grd::rdata(u, rr::OPT, &[], grd::Opts::default()) };
+            ops.push(Op::Opt {
+                udp: [0u16, 512, 1232, 4096, 65535][pick(u, 5)],
+                version: if chance(u, 200) { 0 } else { byte(u) },
+                dok: flag(u),
+                rcode: if chance(u, 100) { Some(u16_(u) & 0x0FFF) } else { None },
+                options,
+                typed: flag(u),
+            })
+        }
+        21 => ops.push(Op::SetLimit { kind: pick(u, 5) as u8, val: u16_(u) }),
+        22 => ops.push(Op::ClearLimit),
+        23 => ops.push(Op::Header { id: u16_(u), flags: u16_(u) }),
+        24 => ops.push(Op::Check),
+        25 => {
+            // burst: many small records with distinct names (fills the static
+            // compressor's table, many hash/tree entries)
+            let big = chance(u, 32);
+            let n = 1 + pick(u, if big { 300 } else { 40 });
+            let base = pool[pick(u, pool.len())].clone();
+            let kind = pick(u, 3);
+            let form = pick(u, 6) as u8;
+            for i in 0..n {
+                let mut owner = base.clone();
+                if gn::wire_len(&owner) + 6 <= 255 {
+                    owner.insert(0, format!("n{}", i % 97).into_bytes());
+                }
+                let (rtype, rdata) = match kind {
+                    0 => (rr::A, vec![192, 0, 2, i as u8]),
+                    1 => {
+                        let mut t = base.clone();
+                        if gn::wire_len(&t) + 6 <= 255 {
+                            t.insert(0, format!("m{}", i % 89).into_bytes());
+                        }
+                        (rr::NS, gn::to_wire(&t))
+                    }
+                    _ => {
+                        let mut rd = vec![0, (i % 7) as u8];
+                        rd.extend(gn::to_wire(&owner));
+                        (rr::MX, rd)
+                    }
+                };
+                ops.push(Op::PushR { r: Rec { owner, rtype, class: 1, ttl: 300, rdata }, form });
+            }
+        }
+        _ => {
+            let nq = pick(u, 3);
+            let qs = (0..nq).map(|_| gen_quest(u, pool, plain)).collect();
+            ops.push(Op::Start { error: flag(u), id: u16_(u), flags: u16_(u), rcode: byte(u) & 0xF, qs })
+        }
+    }
+}
+
+fn gen_pad(u: &mut Unstructured, pool: &[Labels], goal: Option<u8>) -> Op {
+    let goal = goal.unwrap_or_else(|| pick(u, 8) as u8);
+    let delta = match pick(u, 4) {
+        0 => [0i16, -1, 1, -2, 2, -3, 3][pick(u, 7)],
+        1 => [-12i16, 12, -20, 20, -40, 40, -64, 64][pick(u, 8)],
+        2 => -(pick(u, 300) as i16),
+        _ => pick(u, 300) as i16,
+    };
+    let rtype = [rr::NULL, rr::TXT, 65280u16][pick(u, 3)];
+    let owner = if flag(u) { vec![] } else { pool[pick(u, pool.len())].clone() };
+    Op::Pad { goal, delta, rtype, owner, form: pick(u, 3) as u8 }
+}
+
+fn decode(data: &[u8], boundary: bool) -> Case {
+    let mut u = Unstructured::new(data);
+    let u = &mut u;
+    let tk = if boundary { BIG_KINDS[pick(u, BIG_KINDS.len())] } else { pick(u, KINDS.len()) as u8 };
+    let ck = pick(u, 4) as u8;
+    let direct = flag(u);
+    let plain = !chance(u, 80);
+    let pn = 2 + pick(u, 7);
+    let pool = gn::pool(u, pn, plain);
+    let max_ops = if chance(u, 16) { 400 } else { 40 };
+    let mut ops = vec![];
+    if boundary {
+        // a few early items, then a pad to the 0x4000 region, then names that
+        // are first written beyond it and used again
+        for _ in 0..pick(u, 3) {
+            gen_op(u, &pool, plain, &mut ops);
+        }
+        let goal = if chance(u, 200) { 1 } else { 2 + pick(u, 3) as u8 };
+        ops.push(gen_pad(u, &pool, Some(goal)));
+        let n = 2 + pick(u, 10);
+        for _ in 0..n {
+            if chance(u, 200) {
+                ops.push(Op::PushR { r: gen_rec(u, &pool, plain), form: pick(u, 6) as u8 });
+            } else {
+                gen_op(u, &pool, plain, &mut ops);
+            }
+        }
+        if chance(u, 100) {
+            ops.push(gen_pad(u, &pool, Some(5)));
+            for _ in 0..pick(u, 6) {
+                gen_op(u, &pool, plain, &mut ops);
+            }
+        }
+    } else {
+        let nops = pick(u, max_ops + 1);
+        while ops.len() < nops {
+            gen_op(u, &pool, plain, &mut ops);
+        }
+    }
+    Case { tk, ck, direct, ops }
+}
+
+fn show_case(c: &Case) -> String {
+    let mut s = format!("{} x {}:", KINDS[c.tk as usize].1, COMPS[c.ck as usize]);
+    for op in c.ops.iter().take(24) {
+        s.push(' ');
+        match op {
+            Op::Header { id, flags } => s.push_str(&format!("hdr({id:#x},{flags:#x})")),
+            Op::Goto { dst, via_from } => s.push_str(&format!("goto{}({})", if *via_from { "-from" } else { "" }, ["builder", "question", "answer", "authority", "additional"][*dst as usize])),
+            Op::PushQ { q, .. } => s.push_str(&format!("q({} {})", gn::show(&q.name), rr::mnemonic(q.qtype))),
+            Op::PushR { r, form } => s.push_str(&format!("rr({} {} len={} f{form})", gn::show(&r.owner), rr::mnemonic(r.rtype), r.rdata.len())),
+            Op::Pad { goal, delta, .. } => s.push_str(&format!("pad(goal{goal}{delta:+})")),
+            Op::Opt { options, rcode, .. } => s.push_str(&format!("opt(len={} rcode={rcode:?})", options.len())),
+            Op::Rewind => s.push_str("rewind"),
+            Op::SetLimit { kind, val } => s.push_str(&format!("limit(k{kind},{val})")),
+            Op::ClearLimit => s.push_str("nolimit"),
+            Op::Start { error, qs, .. } => s.push_str(&format!("start_{}({}q)", if *error { "error" } else { "answer" }, qs.len())),
+            Op::Check => s.push_str("check"),
+        }
+    }
+    if c.ops.len() > 24 {
+        s.push_str(&format!(" … ({} ops)", c.ops.len()));
+    }
+    s
+}
+
+//============ Model ===========================================================
+
+#[derive(Clone, Default)]
+struct Model {
+    id: u16,
+    flags: u16,
+    qs: Vec<Quest>,
+    /// (section 1..=3, record)
+    rs: Vec<(u8, Rec)>,
+    limit: Option<usize>,
+}
+
+impl Model {
+    fn counts(&self) -> [u16; 4] {
+        let mut c = [self.qs.len() as u16, 0, 0, 0];
+        for (s, _) in &self.rs {
+            c[*s as usize] += 1;
+        }
+        c
+    }
+    /// Builder state `dst` (0 builder … 4 additional) was entered: everything
+    /// in later sections is gone; entering the bare builder drops questions.
+    fn entered(&mut self, dst: u8) -> usize {
+        let before = self.qs.len() + self.rs.len();
+        if dst == 0 {
+            self.qs.clear();
+        }
+        let keep_up_to = dst.saturating_sub(1); // record sections 1..=3 kept if <= dst-1
+        self.rs.retain(|(s, _)| *s <= keep_up_to && dst >= 2);
+        before - (self.qs.len() + self.rs.len())
+    }
+    fn rewound(&mut self, state: u8) -> usize {
+        let before = self.qs.len() + self.rs.len();
+        if state == 1 {
+            self.qs.clear();
+        } else {
+            self.rs.retain(|(s, _)| *s != state - 1);
+        }
+        before - (self.qs.len() + self.rs.len())
+    }
+    /// Uncompressed reference composition (independent assembler).
+    fn assemble(&self) -> Vec<u8> {
+        let mut a = wire::Asm::new(self.id, self.flags);
+        for q in &self.qs {
+            a.question(&q.name, q.qtype, q.qclass);
+        }
+        for (s, r) in &self.rs {
+            a.record(*s as usize, &r.owner, r.rtype, r.class, r.ttl, &r.rdata);
+        }
+        a.buf
+    }
+}
+
+fn rec_size(r: &Rec) -> usize {
+    gn::wire_len(&r.owner) + 10 + r.rdata.len()
+}
+
+fn name_eq(a: &[Vec<u8>], b: &[Vec<u8>], ci: bool) -> bool {
+    a.len() == b.len()
+        && a.iter().zip(b).all(|(x, y)| if ci { x.len() == y.len() && x.eq_ignore_ascii_case(y) } else { x == y })
+}
+
+/// RDATA equality: exact, except that under a compressor the octets of
+/// embedded names may differ in ASCII case (label structure must be equal;
+/// a length octet is < 0x40 and therefore never a letter).
+fn rdata_eq(rtype: u16, want: &[u8], got: &[u8], ci: bool) -> bool {
+    if want == got {
+        return true;
+    }
+    if !ci || want.len() != got.len() {
+        return false;
+    }
+    let spans = rr::name_spans(rtype, want);
+    let mut pos = 0;
+    for (off, len, _, _) in spans {
+        if want[pos..off] != got[pos..off] {
+            return false;
+        }
+        if !want[off..off + len].eq_ignore_ascii_case(&got[off..off + len]) {
+            return false;
+        }
+        pos = off + len;
+    }
+    want[pos..] == got[pos..]
+}
+
+fn hex(b: &[u8]) -> String {
+    let mut s = String::new();
+    for x in b.iter().take(48) {
+        s.push_str(&format!("{x:02x}"));
+    }
+    if b.len() > 48 {
+        s.push_str(&format!("…({} octets)", b.len()));
+    }
+    s
+}
+
+//============ Statistics of one run ===========================================
+
+#[derive(Default)]
+struct Stats {
+    classes: Vec<String>,
+    ok: u32,
+    failed: u32,
+    failed_then_ok: bool,
+    last_failed: bool,
+    dropped: usize,
+    max_len: usize,
+    pointers: u32,
+    outcomes: Vec<u8>,
+}
+impl Stats {
+    fn class(&mut self, c: &str) {
+        if !self.classes.iter().any(|x| x == c) {
+            self.classes.push(c.to_string());
+        }
+    }
+    fn pushed(&mut self, ok: bool) {
+        self.outcomes.push(ok as u8);
+        if ok {
+            self.ok += 1;
+            if self.last_failed {
+                self.failed_then_ok = true;
+            }
+            self.last_failed = false;
+        } else {
+            self.failed += 1;
+            self.last_failed = true;
+        }
+    }
+}
+
+//============ Full check: walker + library reader vs model ====================
+
+fn check_full(oct: &[u8], m: &Model, comp: bool, tag: &str, st: &mut Stats) -> CaseResult {
+    let sfx = if comp && oct.len() > 0x4000 { ":compressed-msg-beyond-0x4000" } else { "" };
+    let sig = |k: &str| format!("{tag}:{k}{sfx}");
+    let ci = comp;
+    let counts = m.counts();
+
+    //--- independent walker
+    let Some(w) = wire::walk(oct) else { vfail!(sig("walker-short-header"), "message has {} octets", oct.len()) };
+    vensure!(w.header.id == m.id && w.header.flags == m.flags, sig("header-differs"), "header id/flags {:#x}/{:#x}, model {:#x}/{:#x}", w.header.id, w.header.flags, m.id, m.flags);
+    vensure!(w.header.counts == counts, sig("counts-differ-from-model"), "header counts {:?}, successful pushes per section {:?}", w.header.counts, counts);
+    if let Some((idx, e)) = &w.error {
+        vfail!(sig("walker-cannot-parse"), "independent walker fails at item {idx} with {e:?} (message {} octets, {} items pushed)", oct.len(), m.qs.len() + m.rs.len());
+    }
+    for (i, (g, q)) in w.questions.iter().zip(&m.qs).enumerate() {
+        vensure!(name_eq(&g.name, &q.name, ci), sig("question-name-differs"), "question {i} at offset {:#x}: read back {} but {} was pushed", g.start, gn::show(&g.name), gn::show(&q.name));
+        vensure!(g.qtype == q.qtype && g.qclass == q.qclass, sig("question-fields-differ"), "question {i}: type/class {}/{} pushed {}/{}", g.qtype, g.qclass, q.qtype, q.qclass);
+        st.pointers += g.flags_ptrs;
+    }
+    for (i, (g, (s, r))) in w.records.iter().zip(&m.rs).enumerate() {
+        vensure!(g.section == *s, sig("record-in-wrong-section"), "record {i}: in section {} but pushed to {}", g.section, s);
+        match &g.owner {
+            Ok(o) => vensure!(name_eq(o, &r.owner, ci), sig("owner-name-differs"), "record {i} ({}) at offset {:#x}: owner reads back as {} but {} was pushed", rr::mnemonic(r.rtype), g.start, gn::show(o), gn::show(&r.owner)),
+            Err(e) => vfail!(sig("owner-name-unreadable"), "record {i} at offset {:#x}: owner can not be decompressed ({e:?}); pushed {}", g.start, gn::show(&r.owner)),
+        }
+        st.pointers += g.owner_ptrs;
+        vensure!(g.rtype == r.rtype && g.class == r.class && g.ttl == r.ttl, sig("record-fields-differ"), "record {i}: type/class/ttl {}/{}/{} pushed {}/{}/{}", g.rtype, g.class, g.ttl, r.rtype, r.class, r.ttl);
+        match wire::rdata_normal(oct, g) {
+            Ok((rd, fl)) => {
+                st.pointers += fl.pointers;
+                vensure!(rdata_eq(r.rtype, &r.rdata, &rd, ci), sig("rdata-differs"), "record {i} ({}) at offset {:#x}: RDATA (names decompressed) reads back as {} but {} was pushed", rr::mnemonic(r.rtype), g.start, hex(&rd), hex(&r.rdata));
+            }
+            Err(e) => vfail!(sig("rdata-unreadable"), "record {i} ({}) at offset {:#x}: RDATA can not be walked ({e:?}); RDLENGTH {} ; pushed {}", rr::mnemonic(r.rtype), g.start, g.rd_end - g.rd_start, hex(&r.rdata)),
+        }
+    }
+    vensure!(w.end == oct.len(), sig("trailing-octets"), "items end at {} but the message has {} octets", w.end, oct.len());
+
+    //--- size / octet relation to the uncompressed composition
+    let asm = m.assemble();
+    if !comp {
+        vensure!(oct == &asm[..], sig("octets-differ-from-uncompressed-composition"), "no compressor, but the octets differ from header + concatenated uncompressed items (lengths {} vs {})", oct.len(), asm.len());
+    } else {
+        vensure!(oct.len() <= asm.len(), sig("compressed-longer-than-uncompressed"), "compressed message has {} octets, uncompressed composition {}", oct.len(), asm.len());
+    }
+
+    //--- the library's own reader
+    let msg = match Message::from_octets(oct) {
+        Ok(m) => m,
+        Err(_) => vfail!(sig("lib-reader-rejects-message"), "Message::from_octets fails"),
+    };
+    let hc = msg.header_counts();
+    vensure!([hc.qdcount(), hc.ancount(), hc.nscount(), hc.arcount()] == counts, sig("counts-differ-from-model"), "library reader sees counts that differ from the model");
+    let mut n = 0;
+    for q in msg.question() {
+        let q = match q {
+            Ok(q) => q,
+            Err(e) => vfail!(sig("lib-reader-question-error"), "question {n}: {e}"),
+        };
+        vensure!(n < m.qs.len(), sig("lib-reader-extra-question"), "more questions than pushed");
+        let want = &m.qs[n];
+        let got = gn::from_name(q.qname());
+        vensure!(name_eq(&got, &want.name, ci), sig("lib-reader-question-name-differs"), "question {n}: library reads {} but {} was pushed", gn::show(&got), gn::show(&want.name));
+        vensure!(q.qtype().to_int() == want.qtype && q.qclass().to_int() == want.qclass, sig("lib-reader-question-fields-differ"), "question {n}");
+        n += 1;
+    }
+    vensure!(n == m.qs.len(), sig("lib-reader-missing-question"), "library reads {n} questions, {} pushed", m.qs.len());
+    let mut idx = 0usize;
+    let mut section = match msg.answer() {
+        Ok(s) => s,
+        Err(e) => vfail!(sig("lib-reader-answer-error"), "answer(): {e}"),
+    };
+    for secno in 1u8..=3 {
+        for r in section.by_ref() {
+            let pr = match r {
+                Ok(r) => r,
+                Err(e) => vfail!(sig("lib-reader-record-error"), "record {idx} in section {secno}: {e}"),
+            };
+            vensure!(idx < m.rs.len(), sig("lib-reader-extra-record"), "more records than pushed");
+            let (s, want) = &m.rs[idx];
+            vensure!(*s == secno, sig("lib-reader-record-in-wrong-section"), "record {idx}: section {secno}, pushed to {s}");
+            let got = gn::from_name(&pr.owner());
+            vensure!(name_eq(&got, &want.owner, ci), sig("lib-reader-owner-name-differs"), "record {idx}: library reads owner {} but {} was pushed", gn::show(&got), gn::show(&want.owner));
+            vensure!(pr.rtype().to_int() == want.rtype && pr.class().to_int() == want.class && pr.ttl().as_secs() == want.ttl, sig("lib-reader-record-fields-differ"), "record {idx}");
+            match pr.to_any_record::<AllRecordData<_, ParsedName<_>>>() {
+                Ok(rec) => {
+                    let mut v = Vec::new();
+                    if rec.data().compose_rdata(&mut v).is_ok() {
+                        vensure!(rdata_eq(want.rtype, &want.rdata, &v, ci), sig("lib-reader-rdata-differs"), "record {idx} ({}): library reads RDATA {} but {} was pushed", rr::mnemonic(want.rtype), hex(&v), hex(&want.rdata));
+                    }
+                }
+                Err(_) => {
+                    // The typed parser refuses this RDATA. Whether it should
+                    // is the business of C05; the walker compared it above.
+                    st.class("final-record-not-parsable-as-typed-data");
+                }
+            }
+            idx += 1;
+        }
+        if secno < 3 {
+            section = match section.next_section() {
+                Ok(Some(s)) => s,
+                Ok(None) => vfail!(sig("lib-reader-next-section-none"), "next_section() returned None after section {secno}"),
+                Err(e) => vfail!(sig("lib-reader-next-section-error"), "next_section() after section {secno}: {e}"),
+            };
+        }
+    }
+    vensure!(idx == m.rs.len(), sig("lib-reader-missing-record"), "library reads {idx} records, {} pushed", m.rs.len());
+    Ok(())
+}
+
+//============ Interpreter =====================================================
+
+struct Snap {
+    msg: Vec<u8>,
+    stream: Option<Vec<u8>>,
+}
+
+struct Runner<T: Top> {
+    b: Option<Bld<T>>,
+    m: Model,
+    st: Stats,
+    comp: bool,
+}
+
+/// What a pad record looks like for a wanted RDLENGTH.
+fn pad_rdata(rtype: u16, len: usize) -> Vec<u8> {
+    if rtype != rr::TXT {
+        return (0..len).map(|i| (i * 7 + 3) as u8).collect();
+    }
+    // TXT: character strings; any length >= 1 is expressible
+    let mut out = Vec::with_capacity(len);
+    let mut left = len.max(1);
+    while left > 0 {
+        let n = (left - 1).min(255);
+        out.push(n as u8);
+        out.extend(std::iter::repeat(b'p').take(n));
+        left -= 1 + n;
+    }
+    out
+}
+
+/// A scratch message holding `r` twice (second copy compressed against the
+/// first when `compress`), used to obtain library values with `ParsedName`s.
+fn scratch(r: &Rec, compress: bool) -> Bytes {
+    let noise = [0xFFu8; 96];
+    let mut u = Unstructured::new(&noise);
+    let mut w = gm::Writer { buf: vec![0u8; 12], seen: vec![], layout: gm::Layout::default() };
+    let copies = if compress { 2 } else { 1 };
+    for _ in 0..copies {
+        w.name(&mut u, &r.owner, compress);
+        w.buf.extend_from_slice(&r.rtype.to_be_bytes());
+        w.buf.extend_from_slice(&r.class.to_be_bytes());
+        w.buf.extend_from_slice(&r.ttl.to_be_bytes());
+        w.rdata(&mut u, r.rtype, &r.rdata, compress, false);
+    }
+    w.buf[6..8].copy_from_slice(&(copies as u16).to_be_bytes());
+    Bytes::from(w.buf)
+}
+
+type FlatData = AllRecordData<Vec<u8>, Name<Vec<u8>>>;
+
+/// Every shape of record the interpreter pushes, behind one `ComposeRecord`
+/// type (keeps the number of instantiations of the composition code per
+/// target down). Each arm hands the library's own `ComposeRecord` impl for
+/// that shape (record, tuples with and without class, `u32` or `Ttl`) the
+/// target.
+enum AnyRec {
+    Parsed(ParsedRec),
+    Flat(FlatRec),
+    Tuple3(Name<Vec<u8>>, u32, FlatData),
+    Tuple4(Name<Vec<u8>>, Class, u32, FlatData),
+    Tuple4Ttl(Name<Vec<u8>>, Class, Ttl, FlatData),
+    Chained(Chain<RelativeName<Vec<u8>>, Name<Vec<u8>>>, Ttl, Class, FlatData),
+    Raw(Name<Bytes>, Class, Ttl, UnknownRecordData<Vec<u8>>),
+}
+
+impl ComposeRecord for AnyRec {
+    fn compose_record<Target: Composer + ?Sized>(&self, target: &mut Target) -> Result<(), Target::AppendError> {
+        match self {
+            AnyRec::Parsed(r) => r.compose_record(target),
+            AnyRec::Flat(r) => r.compose_record(target),
+            AnyRec::Tuple3(n, t, d) => (n, *t, d).compose_record(target),
+            AnyRec::Tuple4(n, c, t, d) => (n, *c, *t, d).compose_record(target),
+            AnyRec::Tuple4Ttl(n, c, t, d) => (n, *c, *t, d).compose_record(target),
+            AnyRec::Chained(n, t, c, d) => {
+                if *c == Class::IN {
+                    (n, *t, d).compose_record(target)
+                } else {
+                    (n, *c, *t, d).compose_record(target)
+                }
+            }
+            AnyRec::Raw(n, c, t, d) => (n, *c, *t, d).compose_record(target),
+        }
+    }
+}
+
+enum AnyQ {
+    Quest(Question<Name<Vec<u8>>>),
+    Tuple3(Name<Bytes>, Rtype, Class),
+    Tuple2(Name<Vec<u8>>, Rtype),
+    Parsed(Question<ParsedName<Bytes>>),
+}
+
+impl ComposeQuestion for AnyQ {
+    fn compose_question<Target: Composer + ?Sized>(&self, target: &mut Target) -> Result<(), Target::AppendError> {
+        match self {
+            AnyQ::Quest(q) => q.compose_question(target),
+            AnyQ::Tuple3(n, t, c) => (n, *t, *c).compose_question(target),
+            AnyQ::Tuple2(n, t) => (n, *t).compose_question(target),
+            AnyQ::Parsed(q) => q.compose_question(target),
+        }
+    }
+}
+
+type ParsedRec = Record<ParsedName<Bytes>, AllRecordData<Bytes, ParsedName<Bytes>>>;
+type FlatRec = Record<Name<Vec<u8>>, AllRecordData<Vec<u8>, Name<Vec<u8>>>>;
+
+/// The library's value for `r`, or None if the library does not parse it or
+/// does not reproduce the RDATA when composing it on its own (both are the
+/// business of C05, not of the builder).
+fn lib_value(r: &Rec, compress: bool, st: &mut Stats) -> Option<ParsedRec> {
+    if r.rdata.len() > 20000 {
+        return None;
+    }
+    let msg = Message::from_octets(scratch(r, compress)).ok()?;
+    let pr = msg.answer().ok()?.last()?.ok()?;
+    let rec: ParsedRec = match pr.to_any_record() {
+        Ok(rec) => rec,
+        Err(_) => {
+            st.class("item-not-parsable-by-library(pushed-raw)");
+            st.class(&format!("item-not-parsable-by-library:{}", rr::mnemonic(r.rtype)));
+            return None;
+        }
+    };
+    let mut v = Vec::new();
+    if rec.data().compose_rdata(&mut v).is_err() || v != r.rdata || gn::from_name(rec.owner()) != r.owner {
+        st.class("item-not-reproduced-by-codec(pushed-raw)");
+        st.class(&format!("item-not-reproduced-by-codec:{}", rr::mnemonic(r.rtype)));
+        return None;
+    }
+    Some(rec)
+}
+
+impl<T: Top> Runner<T> {
+    fn is_stream(&self) -> bool {
+        self.b.as_ref().expect("builder present").mb().as_target().base().is_stream()
+    }
+    fn cap(&self) -> Option<usize> {
+        self.b.as_ref().expect("builder present").mb().as_target().base().cap()
+    }
+    fn bld(&mut self) -> &mut Bld<T> {
+        self.b.as_mut().expect("builder present")
+    }
+    fn octets(&self) -> &[u8] {
+        self.b.as_ref().expect("builder present").mb().as_slice()
+    }
+    fn snap(&self) -> Snap {
+        let mb = self.b.as_ref().expect("builder present").mb();
+        Snap { msg: mb.as_slice().to_vec(), stream: mb.as_target().base().stream_slice().map(|s| s.to_vec()) }
+    }
+    fn goto(&mut self, dst: u8, via: bool) {
+        let b = self.b.take().expect("builder present");
+        self.b = Some(b.goto(dst, via));
+        let d = self.m.entered(dst);
+        self.st.dropped += d;
+        if d > 0 {
+            self.st.class("section-change-dropped-items");
+        }
+    }
+
+    /// Cheap invariants, after every op.
+    fn check_light(&mut self, op: &str) -> CaseResult {
+        let counts = self.m.counts();
+        let (id, flags, limit) = (self.m.id, self.m.flags, self.m.limit);
+        let mb = self.b.as_ref().expect("builder present").mb();
+        let s = mb.as_slice();
+        vensure!(s.len() >= 12, format!("{op}:header-missing"), "message has {} octets", s.len());
+        let g = |i: usize| u16::from_be_bytes([s[i], s[i + 1]]);
+        vensure!(g(0) == id && g(2) == flags, format!("{op}:header-differs-from-model"), "header id/flags are {:#06x}/{:#06x}, model says {id:#06x}/{flags:#06x}", g(0), g(2));
+        let got = [g(4), g(6), g(8), g(10)];
+        vensure!(got == counts, format!("{op}:counts-differ-from-model"), "header counts {got:?}, successful pushes per section {counts:?}");
+        let c = mb.counts();
+        vensure!([c.qdcount(), c.ancount(), c.nscount(), c.arcount()] == counts, format!("{op}:counts-accessor-differs"), "counts() disagrees with the model");
+        vensure!(mb.header().id() == id, format!("{op}:header-accessor-differs"), "header().id()");
+        vensure!(mb.push_limit() == limit, format!("{op}:push-limit-accessor-differs"), "push_limit() = {:?}, model {limit:?}", mb.push_limit());
+        let base = mb.as_target().base();
+        if let Some(ss) = base.stream_slice() {
+            vensure!(ss.len() >= 2, format!("{op}:stream-prefix-missing"), "stream slice has {} octets", ss.len());
+            let p = u16::from_be_bytes([ss[0], ss[1]]) as usize;
+            vensure!(p == ss.len() - 2, format!("{op}:stream-length-prefix-mismatch"), "length prefix says {p}, message has {} octets", ss.len() - 2);
+            vensure!(&ss[2..] == s, format!("{op}:stream-slice-differs"), "as_stream_slice()[2..] differs from the builder's slice");
+        }
+        vensure!(s.len() <= 65535 || !self.is_stream(), format!("{op}:stream-message-too-long"), "stream message of {} octets", s.len());
+        if let Some(cap) = self.cap() {
+            vensure!(s.len() <= cap, format!("{op}:beyond-capacity"), "{} octets in a buffer of {cap}", s.len());
+        }
+        let len = s.len();
+        self.st.max_len = self.st.max_len.max(len);
+        Ok(())
+    }
+
+    fn check_full_now(&mut self, tag: &str) -> CaseResult {
+        let oct = self.octets().to_vec();
+        // as_message() must present the same octets
+        let am = self.b.as_ref().expect("builder present").mb().as_message();
+        vensure!(am.as_slice() == &oct[..], format!("{tag}:as_message-differs"), "as_message() octets differ from as_slice()");
+        check_full(&oct, &self.m, self.comp, tag, &mut self.st)
+    }
+
+    /// Runs one push-like call and checks what a failure / a success may do
+    /// to the octets. Returns whether it succeeded.
+    fn guarded_push(&mut self, what: &str, header_may_change: bool, f: impl FnOnce(&mut Bld<T>) -> Result<(), PushError>) -> Result<bool, Violation> {
+        let before = self.snap();
+        let r = f(self.bld());
+        let after = self.snap();
+        match r {
+            Err(_) => {
+                if before.msg != after.msg {
+                    if before.msg.len() == after.msg.len() && before.msg[4..] == after.msg[4..] && header_may_change {
+                        vfail!(format!("{what}:failed-push-changed-header"), "a failed opt() left the header changed: {} -> {}", hex(&before.msg[..4]), hex(&after.msg[..4]));
+                    }
+                    let at = before.msg.iter().zip(&after.msg).position(|(a, b)| a != b).unwrap_or(before.msg.len().min(after.msg.len()));
+                    vfail!(format!("{what}:failed-push-changed-octets"), "push returned Err but the message changed: {} -> {} octets, first difference at offset {at}", before.msg.len(), after.msg.len());
+                }
+                vensure!(before.stream == after.stream, format!("{what}:failed-push-changed-stream-octets"), "push returned Err but the stream octets (length prefix) changed");
+                self.st.pushed(false);
+                Ok(false)
+            }
+            Ok(()) => {
+                vensure!(after.msg.len() > before.msg.len(), format!("{what}:ok-push-did-not-grow"), "push returned Ok but the message went from {} to {} octets", before.msg.len(), after.msg.len());
+                vensure!(after.msg[12..before.msg.len()] == before.msg[12..], format!("{what}:ok-push-changed-earlier-octets"), "a successful push changed octets before its own position");
+                if !header_may_change {
+                    vensure!(after.msg[..4] == before.msg[..4], format!("{what}:ok-push-changed-header"), "a successful push changed the header id/flags");
+                }
+                self.st.pushed(true);
+                Ok(true)
+            }
+        }
+    }
+
+    /// Things to do before a push of (at most) `size` octets.
+    fn before_push(&mut self, size: usize) {
+        let cur = self.octets().len();
+        let growable = self.cap().is_none();
+        if cur + size > 65535 {
+            if self.is_stream() {
+                self.st.class("push-past-64k-on-stream");
+            } else if self.cap().map(|c| c > 65535).unwrap_or(true) {
+                // Nothing but the caller keeps a plain buffer within the DNS
+                // message size: do what such a caller does.
+                if self.m.limit.map(|l| l > 65536).unwrap_or(true) {
+                    self.bld().mb_mut().set_push_limit(65536);
+                    self.m.limit = Some(65536);
+                }
+                self.st.class("push-past-64k-guarded-by-push-limit");
+            }
+        } else if growable && self.m.limit.is_none() {
+            self.st.class("expect-success");
+        }
+    }
+    fn after_push(&mut self, size: usize, cur_before: usize, ok: bool) {
+        let growable = self.cap().is_none();
+        if growable && cur_before + size <= 65535 && !ok {
+            // limit may have been set meanwhile only by before_push (not in
+            // this branch), so check the model
+            if self.m.limit.is_none() {
+                self.st.class("unexpected-refusal");
+            }
+        }
+        if !ok {
+            if self.m.limit.is_some() {
+                self.st.class("push-failed-with-limit-set");
+            } else if self.cap().is_some() {
+                self.st.class("push-failed-buffer-full");
+            }
+        }
+    }
+
+    fn push_record(&mut self, r: &Rec, form: u8, what: &'static str) -> Result<bool, Violation> {
+        if self.bld().sec() < 2 {
+            self.goto(2, false);
+        }
+        let sec = self.bld().sec() - 1;
+        let size = rec_size(r);
+        let cur = self.octets().len();
+        self.before_push(size);
+        let val = if form == 3 || what == "pad" && form != 1 { None } else { lib_value(r, form & 1 == 1, &mut self.st) };
+        let class = Class::from_int(r.class);
+        let (any, by_ref) = match val {
+            None => {
+                let Ok(data) = UnknownRecordData::from_octets(Rtype::from_int(r.rtype), r.rdata.clone()) else { return Ok(false) };
+                (AnyRec::Raw(gn::to_name_bytes(&r.owner), class, Ttl::from_secs(r.ttl), data), form == 1)
+            }
+            Some(rec) => match form {
+                0 => (AnyRec::Parsed(rec), false),
+                1 => (AnyRec::Parsed(rec), true),
+                2 => {
+                    let flat: FlatRec = rec.flatten_into();
+                    let (owner, data) = flat.into_owner_and_data();
+                    if r.class == 1 {
+                        (AnyRec::Tuple3(owner, r.ttl, data), false)
+                    } else {
+                        (AnyRec::Tuple4(owner, class, r.ttl, data), false)
+                    }
+                }
+                4 => (AnyRec::Flat(rec.flatten_into()), true),
+                _ => {
+                    // owner as a chain of a relative name and an absolute one
+                    let flat: FlatRec = rec.flatten_into();
+                    let (owner, data) = flat.into_owner_and_data();
+                    if r.owner.is_empty() {
+                        (AnyRec::Tuple4Ttl(owner, class, Ttl::from_secs(r.ttl), data), false)
+                    } else {
+                        let mut first = vec![r.owner[0].len() as u8];
+                        first.extend_from_slice(&r.owner[0]);
+                        let rel = RelativeName::from_octets(first).expect("one label is a valid relative name");
+                        let rest = gn::to_name(&r.owner[1..].to_vec());
+                        let chain = rel.chain(rest).expect("chain within 255 octets");
+                        (AnyRec::Chained(chain, Ttl::from_secs(r.ttl), class, data), false)
+                    }
+                }
+            },
+        };
+        let ok = self.guarded_push(what, false, |b| b.push_r(any, by_ref))?;
+        self.after_push(size, cur, ok);
+        if ok {
+            self.m.rs.push((sec, r.clone()));
+        }
+        Ok(ok)
+    }
+
+    fn push_question(&mut self, q: &Quest, form: u8, force: bool) -> Result<(), Violation> {
+        match self.bld().sec() {
+            0 => self.goto(1, false),
+            1 => {}
+            _ if force => self.goto(1, false),
+            _ => return Ok(()),
+        }
+        let size = gn::wire_len(&q.name) + 4;
+        let cur = self.octets().len();
+        self.before_push(size);
+        let (qt, qc) = (Rtype::from_int(q.qtype), Class::from_int(q.qclass));
+        let (any, by_ref) = match form {
+            0 => (AnyQ::Quest(Question::new(gn::to_name(&q.name), qt, qc)), false),
+            1 => (AnyQ::Tuple3(gn::to_name_bytes(&q.name), qt, qc), false),
+            2 if q.qclass == 1 => (AnyQ::Tuple2(gn::to_name(&q.name), qt), false),
+            3 => (AnyQ::Quest(Question::new(gn::to_name(&q.name), qt, qc)), true),
+            _ => {
+                // a ParsedName out of a request message
+                let mut a = wire::Asm::new(0, 0);
+                a.question(&q.name, q.qtype, q.qclass);
+                let req = Message::from_octets(Bytes::from(a.buf)).expect("request has a header");
+                match req.first_question() {
+                    Some(pq) => (AnyQ::Parsed(pq), false),
+                    None => return Ok(()),
+                }
+            }
+        };
+        let ok = self.guarded_push("question", false, |b| b.push_q(any, by_ref))?;
+        self.after_push(size, cur, ok);
+        if ok {
+            self.m.qs.push(q.clone());
+        }
+        Ok(())
+    }
+
+    fn push_opt(&mut self, udp: u16, version: u8, dok: bool, rcode: Option<u16>, options: &[u8], typed: bool) -> Result<(), Violation> {
+        if self.bld().sec() != 4 {
+            self.goto(4, false);
+        }
+        let size = 11 + options.len();
+        let cur = self.octets().len();
+        self.before_push(size);
+        // split the options
+        let mut raw: Vec<(u16, &[u8])> = vec![];
+        let mut pos = 0;
+        while pos + 4 <= options.len() {
+            let code = u16::from_be_bytes([options[pos], options[pos + 1]]);
+            let len = u16::from_be_bytes([options[pos + 2], options[pos + 3]]) as usize;
+            raw.push((code, &options[pos + 4..pos + 4 + len]));
+            pos += 4 + len;
+        }
+        // typed options, if the library parses them and reproduces them
+        let mut use_typed = false;
+        if typed {
+            if let Ok(opt) = Opt::from_octets(options) {
+                let mut back: Vec<u8> = vec![];
+                let mut good = true;
+                for o in opt.iter::<AllOptData<_, _>>() {
+                    match o {
+                        Ok(o) => {
+                            let o: AllOptData<&[u8], Name<&[u8]>> = o;
+                            back.extend_from_slice(&o.code().to_int().to_be_bytes());
+                            back.extend_from_slice(&o.compose_len().to_be_bytes());
+                            if o.compose_option(&mut back).is_err() {
+                                good = false;
+                            }
+                        }
+                        Err(_) => good = false,
+                    }
+                }
+                use_typed = good && back == options;
+            }
+            if !use_typed {
+                self.st.class("opt-options-not-reproduced-by-codec(pushed-raw)");
+            }
+        }
+        let opts_vec = options.to_vec();
+        let ok = self.guarded_push("opt", rcode.is_some(), |b| match b {
+            Bld::Ad(ad) => ad.opt(|o| {
+                o.set_udp_payload_size(udp);
+                if version != 0 {
+                    o.set_version(version);
+                }
+                if dok {
+                    o.set_dnssec_ok(true);
+                }
+                if let Some(rc) = rcode {
+                    o.set_rcode(OptRcode::masked_from_int(rc));
+                }
+                if use_typed {
+                    let opt = Opt::from_octets(&opts_vec[..]).expect("parsed before");
+                    for od in opt.iter::<AllOptData<_, _>>() {
+                        let od: AllOptData<&[u8], Name<&[u8]>> = od.expect("parsed before");
+                        o.push(&od)?;
+                    }
+                } else {
+                    for (code, data) in &raw {
+                        o.push_raw_option(OptionCode::from_int(*code), data.len() as u16, |t| t.append_slice(data))?;
+                    }
+                }
+                Ok(())
+            }),
+            _ => unreachable!("opt outside the additional section"),
+        })?;
+        self.after_push(size, cur, ok);
+        if ok {
+            let mut ttl = (version as u32) << 16 | if dok { 0x8000 } else { 0 };
+            if let Some(rc) = rcode {
+                ttl |= ((rc >> 4) as u32) << 24;
+                self.m.flags = (self.m.flags & !0xF) | (rc & 0xF);
+            }
+            self.m.rs.push((3, Rec { owner: vec![], rtype: rr::OPT, class: udp, ttl, rdata: options.to_vec() }));
+            self.st.class(if use_typed { "opt-typed-options" } else { "opt-raw-options" });
+            self.st.class("opt");
+        } else {
+            self.st.class("opt-failed");
+        }
+        Ok(())
+    }
+
+    fn start(&mut self, error: bool, id: u16, flags: u16, rcode: u8, qs: &[Quest]) -> CaseResult {
+        if !matches!(self.b, Some(Bld::M(_))) {
+            return Ok(());
+        }
+        // the request, with compressed question names
+        let noise = [0xFFu8; 32];
+        let mut u = Unstructured::new(&noise);
+        let mut w = gm::Writer { buf: vec![0u8; 12], seen: vec![], layout: gm::Layout::default() };
+        w.buf[0..2].copy_from_slice(&id.to_be_bytes());
+        w.buf[2..4].copy_from_slice(&(flags & 0x7FFF).to_be_bytes());
+        w.buf[4..6].copy_from_slice(&(qs.len() as u16).to_be_bytes());
+        for q in qs {
+            w.name(&mut u, &q.name, true);
+            w.buf.extend_from_slice(&q.qtype.to_be_bytes());
+            w.buf.extend_from_slice(&q.qclass.to_be_bytes());
+        }
+        let req = Message::from_octets(w.buf).expect("request has a header");
+        let Some(Bld::M(mb)) = self.b.take() else { unreachable!() };
+        let keep = mb.clone();
+        let before = mb.as_slice().to_vec();
+        let new_flags = |old: u16, rc: u16| (old & 0x06F0) | 0x8000 | (flags & 0x7800) | (flags & 0x0100) | rc;
+        if error {
+            let an = mb.start_error(&req, Rcode::masked_from_int(rcode));
+            let k = an.counts().qdcount() as usize;
+            vensure!(k <= qs.len(), "start_error:more-questions-than-request", "{k} questions from a request with {}", qs.len());
+            self.b = Some(Bld::An(an));
+            self.m.id = id;
+            self.m.flags = new_flags(self.m.flags, if k < qs.len() { 2 } else { rcode as u16 });
+            self.m.qs = qs[..k].to_vec();
+            self.st.class(if k < qs.len() { "start_error-servfail" } else { "start_error" });
+        } else {
+            match mb.start_answer(&req, Rcode::masked_from_int(rcode)) {
+                Ok(an) => {
+                    self.b = Some(Bld::An(an));
+                    self.m.id = id;
+                    self.m.flags = new_flags(self.m.flags, rcode as u16);
+                    self.m.qs = qs.to_vec();
+                    self.st.class("start_answer");
+                }
+                Err(_) => {
+                    // the builder is consumed; the caller keeps its copy
+                    vensure!(keep.as_slice() == &before[..], "start_answer:clone-differs", "clone of the builder differs");
+                    self.b = Some(Bld::M(keep));
+                    self.st.class("start_answer-failed");
+                }
+            }
+        }
+        Ok(())
+    }
+
+    fn exec(&mut self, op: &Op) -> CaseResult {
+        match op {
+            Op::Header { id, flags } => {
+                let h = self.bld().mb_mut().header_mut();
+                h.set_id(*id);
+                h.set_qr(flags & 0x8000 != 0);
+                h.set_opcode(Opcode::from_int(((flags >> 11) & 0xF) as u8));
+                h.set_aa(flags & 0x0400 != 0);
+                h.set_tc(flags & 0x0200 != 0);
+                h.set_rd(flags & 0x0100 != 0);
+                h.set_ra(flags & 0x0080 != 0);
+                h.set_z(flags & 0x0040 != 0);
+                h.set_ad(flags & 0x0020 != 0);
+                h.set_cd(flags & 0x0010 != 0);
+                h.set_rcode(Rcode::masked_from_int((flags & 0xF) as u8));
+                self.m.id = *id;
+                self.m.flags = *flags;
+                self.check_light("header_mut")
+            }
+            Op::Goto { dst, via_from } => {
+                let before = self.snap();
+                self.goto(*dst, *via_from);
+                let s = self.octets();
+                vensure!(s.len() <= before.msg.len() && s[12..] == before.msg[12..s.len()], "goto:octets-not-a-prefix", "a section change altered octets it should keep");
+                self.check_light("goto")
+            }
+            Op::PushQ { q, form, force } => {
+                self.push_question(q, *form, *force)?;
+                self.check_light("question")
+            }
+            Op::PushR { r, form } => {
+                self.push_record(r, *form, "record")?;
+                self.check_light("record")
+            }
+            Op::Pad { goal, delta, rtype, owner, form } => {
+                if self.bld().sec() < 2 {
+                    self.goto(2, false);
+                }
+                let cur = self.octets().len() as i64;
+                let cap = self.cap().unwrap_or(0xFFFF).min(0xFFFF) as i64;
+                let g: i64 = match goal {
+                    0 => cur + 600,
+                    1 => 0x3FFF,
+                    2 => 0x4000,
+                    3 => 0x4000 + 40,
+                    4 => 0x8000,
+                    5 => 0xFFFF,
+                    6 => 0xC000,
+                    _ => cap,
+                };
+                let overhead = gn::wire_len(owner) as i64 + 10;
+                let mut len = g + *delta as i64 - cur - overhead;
+                if len < 0 || len > 65535 {
+                    len = [0i64, 1, 255, 256, 1000][(delta.unsigned_abs() % 5) as usize];
+                }
+                let r = Rec { owner: owner.clone(), rtype: *rtype, class: 1, ttl: 0, rdata: pad_rdata(*rtype, len as usize) };
+                if self.push_record(&r, *form, "pad")? {
+                    self.st.class("pad-ok");
+                }
+                self.check_light("pad")
+            }
+            Op::Opt { udp, version, dok, rcode, options, typed } => {
+                self.push_opt(*udp, *version, *dok, *rcode, options, *typed)?;
+                self.check_light("opt")
+            }
+            Op::Rewind => {
+                let before = self.snap();
+                let state = self.bld().sec();
+                if self.bld().rewind() {
+                    let d = self.m.rewound(state);
+                    self.st.dropped += d;
+                    self.st.class(if d > 0 { "rewind-dropped-items" } else { "rewind-empty" });
+                    let s = self.octets();
+                    vensure!(s.len() <= before.msg.len() && s[12..] == before.msg[12..s.len()], "rewind:octets-not-a-prefix", "rewind altered octets it should keep");
+                }
+                self.check_light("rewind")
+            }
+            Op::SetLimit { kind, val } => {
+                let cur = self.octets().len();
+                let v = match kind {
+                    0 => cur + 1 + (*val as usize % 64),
+                    1 => cur + (*val as usize % 600),
+                    2 => [0usize, 12, 13, 100, 512, 1232, 0x3FFF, 0x4000, 0x4001, 0xFFFF, 0x10000][*val as usize % 11],
+                    3 => cur,
+                    _ => *val as usize,
+                };
+                self.bld().mb_mut().set_push_limit(v);
+                self.m.limit = Some(v);
+                self.st.class("push-limit-set");
+                self.check_light("set_push_limit")
+            }
+            Op::ClearLimit => {
+                self.bld().mb_mut().clear_push_limit();
+                self.m.limit = None;
+                self.check_light("clear_push_limit")
+            }
+            Op::Start { error, id, flags, rcode, qs } => {
+                self.start(*error, *id, *flags, *rcode, qs)?;
+                self.check_light("start")
+            }
+            Op::Check => self.check_full_now("mid"),
+        }
+    }
+}
+
+struct Out {
+    octets: Vec<u8>,
+    st: Stats,
+}
+
+fn run_script<T: Top>(case: &Case, tk: u8) -> Result<Out, Violation> {
+    let mb = match MessageBuilder::from_target(T::wrap(<T::B as Base>::fresh(tk))) {
+        Ok(mb) => mb,
+        Err(_) => vfail!("from_target:refused", "from_target fails on an empty {}", KINDS[tk as usize].1),
+    };
+    let mut r = Runner::<T> { b: Some(Bld::M(mb)), m: Model::default(), st: Stats::default(), comp: case.ck != 0 };
+    r.check_light("from_target")?;
+    for op in &case.ops {
+        r.exec(op)?;
+        // while the message is small the full comparison is cheap
+        if r.octets().len() <= 700 && !matches!(op, Op::Check) {
+            r.check_full_now("step")?;
+        }
+    }
+    r.check_full_now("final")?;
+    let oct = r.octets().to_vec();
+    // ways of finishing
+    let b = r.b.take().expect("builder present");
+    if let Some(v) = T::into_message_octets(b.clone_b()) {
+        vensure!(v == oct, "into_message:octets-differ", "into_message() octets differ from the builder's slice");
+        r.st.class("into_message");
+    }
+    let t = b.finish();
+    let base = t.into_base();
+    vensure!(base.final_octets() == &oct[..], "finish:octets-differ", "finish() target octets differ from the builder's slice");
+    if let Some(ss) = base.stream_slice() {
+        vensure!(ss.len() == oct.len() + 2 && u16::from_be_bytes([ss[0], ss[1]]) as usize == oct.len() && ss[2..] == oct[..], "finish:stream-length-prefix-mismatch", "finished stream target: prefix {:?}, message {} octets", &ss[..2.min(ss.len())], oct.len());
+    }
+    Ok(Out { octets: oct, st: r.st })
+}
+
+fn run_case_inner(case: &Case, ctx: &mut Ctx) -> CaseResult {
+    let (tk, ck) = (case.tk, case.ck);
+    let (out, direct) = run_dispatch(case, tk, ck, case.direct)?;
+    ctx.class(if direct { "instantiated-directly" } else { "via-delegating-enum" });
+    let st = &out.st;
+    // twin run: Vec and BytesMut (bare or in a stream target) must give the
+    // same octets and the same outcomes
+    let twin = match tk {
+        0 => Some(1u8),
+        1 => Some(0),
+        3 => Some(4),
+        4 => Some(3),
+        _ => None,
+    };
+    if let Some(t2) = twin {
+        let (o2, _) = run_dispatch(case, t2, ck, case.direct)?;
+        vensure!(o2.st.outcomes == st.outcomes, "twin:push-outcomes-differ", "the same script on {} and {} has different push outcomes", KINDS[tk as usize].1, KINDS[t2 as usize].1);
+        vensure!(o2.octets == out.octets, "twin:octets-differ", "the same script on {} and {} gives different octets ({} vs {})", KINDS[tk as usize].1, KINDS[t2 as usize].1, out.octets.len(), o2.octets.len());
+        ctx.class("twin-run");
+    }
+    // evidence
+    ctx.class(format!("cell:{}x{}", KINDS[tk as usize].0, COMPS[ck as usize]));
+    ctx.class(format!("target:{}", KINDS[tk as usize].1));
+    for c in &st.classes {
+        ctx.class(c.clone());
+    }
+    if st.failed_then_ok {
+        ctx.class("failed-then-ok");
+    }
+    if st.failed > 0 {
+        ctx.class("some-push-failed");
+    }
+    let len = out.octets.len();
+    if len >= 0x4000 {
+        ctx.class("final-len>=0x4000");
+    }
+    if st.max_len >= 0x4000 {
+        ctx.class("crossed-0x4000");
+    }
+    if len > 0xC000 {
+        ctx.class("final-len>0xC000");
+    }
+    if len == 0xFFFF {
+        ctx.class("final-len==0xFFFF");
+    }
+    if len >= 0xFFF0 && len <= 0xFFFF {
+        ctx.class("final-len-within-16-of-0xFFFF");
+    }
+    if ck != 0 && st.pointers > 0 {
+        ctx.class("compression-pointers-present");
+    }
+    if ck != 0 && len > 0x4000 {
+        // was a name used again that was first written at or beyond 0x4000?
+        if let Some(w) = wire::walk(&out.octets) {
+            let mut first: BTreeMap<Vec<Vec<u8>>, usize> = BTreeMap::new();
+            let mut reuse = false;
+            for r in &w.records {
+                if let Ok(o) = &r.owner {
+                    if o.is_empty() {
+                        continue;
+                    }
+                    let key: Vec<Vec<u8>> = o.iter().map(|l| l.to_ascii_lowercase()).collect();
+                    match first.get(&key) {
+                        Some(&p) if p >= 0x4000 => reuse = true,
+                        Some(_) => {}
+                        None => {
+                            first.insert(key, r.start);
+                        }
+                    }
+                }
+            }
+            if reuse {
+                ctx.class("reuse-of-name-first-written>=0x4000");
+            }
+        }
+    }
+    let nontrivial = (ck != 0 && st.pointers > 0) || st.failed_then_ok || st.dropped > 0 || len >= 0x4000;
+    if nontrivial {
+        ctx.nontrivial(case);
+    }
+    ctx.sample(|| format!("{} => {} octets, {} pushes ok, {} failed", show_case(case), len, st.ok, st.failed));
+    Ok(())
+}
+
+fn run_ops(data: &[u8], ctx: &mut Ctx) -> CaseResult {
+    let case = decode(data, false);
+    run_case_inner(&case, ctx)
+}
+
+fn run_boundary(data: &[u8], ctx: &mut Ctx) -> CaseResult {
+    let case = decode(data, true);
+    run_case_inner(&case, ctx)
+}
+
+fn health(c: &BTreeMap<String, u64>, _thorough: bool) -> Result<(), String> {
+    let get = |k: &str| c.get(k).copied().unwrap_or(0);
+    for fam in ["Vec", "BytesMut", "Array", "StreamVec", "StreamBytesMut", "StreamArray"] {
+        for comp in COMPS {
+            let k = format!("cell:{fam}x{comp}");
+            if get(&k) < 20 {
+                return Err(format!("class {k} starved ({})", get(&k)));
+            }
+        }
+    }
+    for (_, t) in KINDS {
+        let k = format!("target:{t}");
+        if get(&k) < 20 {
+            return Err(format!("class {k} starved ({})", get(&k)));
+        }
+    }
+    for k in [
+        "failed-then-ok",
+        "crossed-0x4000",
+        "final-len>0xC000",
+        "final-len-within-16-of-0xFFFF",
+        "rewind-dropped-items",
+        "section-change-dropped-items",
+        "opt",
+        "opt-failed",
+        "push-failed-buffer-full",
+        "push-failed-with-limit-set",
+        "compression-pointers-present",
+        "reuse-of-name-first-written>=0x4000",
+        "push-past-64k-on-stream",
+        "push-past-64k-guarded-by-push-limit",
+        "start_answer",
+        "start_error",
+        "into_message",
+        "twin-run",
+    ] {
+        if get(k) < 10 {
+            return Err(format!("class {k} starved ({})", get(k)));
+        }
+    }
+    // a builder that refuses everything must not pass vacuously
+    let expect = get("expect-success");
+    let refused = get("unexpected-refusal");
+    if expect < 100 || refused * 20 > expect {
+        return Err(format!("pushes that fit on a growable target without limit were refused in {refused} of {expect} cases"));
+    }
+    Ok(())
+}
 
 pub fn prop() -> Option<Prop> {
-    None
+    Some(Prop {
+        id: "C02",
+        rule: "a case = (target kind, compressor, op list) decoded from generated bytes; non-trivial = under a compressor the final message contains at least one compression pointer, or a failed push was followed by a successful one, or a rewind/section change dropped at least one pushed item, or the final message has >= 0x4000 octets; distinct by hash of the decoded case",
+        assumptions: &[
+            "names under a compressor are compared ignoring ASCII case (Static/Hash compressors match labels with Label::eq by design) but exactly in label structure; exact octets without a compressor",
+            "a caller of a growable non-stream target keeps the message within 65535 octets with set_push_limit(65536); the harness does the same before a push that could exceed it",
+            "items the library's own codec does not parse/reproduce (C05's business) are pushed as UnknownRecordData",
+            "pushes are not predicted to succeed; a health assertion requires fitting pushes on growable targets without limit to succeed",
+            "reference: refimpl::wire walker and assembler (independent of the library)",
+        ],
+        subchecks: vec![
+            SubCheck::new("ops", run_ops, 60_000, 1_200_000, 3000),
+            SubCheck::new("boundary", run_boundary, 16_000, 300_000, 1500),
+        ],
+        health: Some(health),
+        extra: None,
+    })
 }
